@@ -237,6 +237,15 @@ def rule_link(c, prog):
                 if n.get("k") == "MethodCall" and n["m"] == "extend" and "VecDeque" in (n["recv"].get("ty", "") + n["recv"].get("aty", "")):
                     root, pth = core.place_root(n["args"][0]) if n["args"] else (None, [])
                     srcs.append((root, tuple(p for p in pth if not p.startswith("."))))
+                fl = core.as_for(n)
+                if fl is not None and n.get("k") != "DropTemps":
+                    # `for c in <src> { queue.push_back(c) }` is the same extension
+                    pushes = [x for x in core.walk(fl[2], into_closures=False) if x.get("k") == "MethodCall" and x["m"] == "push_back" and "VecDeque" in (x["recv"].get("ty", "") + x["recv"].get("aty", ""))]
+                    if pushes and not any(core.as_for(y) is not None and y is not n and y.get("k") != "DropTemps" for y in core.walk(fl[2], into_closures=False)):
+                        root, pth = core.place_root(fl[1])
+                        fields = tuple(p for p in pth if not p.startswith("."))
+                        if fields:
+                            srcs.append((root, fields))
             if srcs:
                 n_src += 1
                 if all("children" in p[:1] for r, p in srcs):
